@@ -492,6 +492,15 @@ func TestC11(t *testing.T) {
 	for i := 0; i < pick(20, 200); i++ {
 		a, b := channel.Direct()
 		recs := c11Records(rng, "hdr:0:-", false)
+		// an empty record may be nil or an empty non-nil slice: both are legal records
+		for k := range recs {
+			if len(recs[k]) == 0 && rng.Intn(2) == 0 {
+				recs[k] = nil
+			}
+		}
+		if i%4 == 0 {
+			recs = append([][]byte{[]byte("x"), nil, []byte("y"), {}, nil}, recs...)
+		}
 		go func() {
 			for _, r := range recs {
 				a.Send(r)
